@@ -184,7 +184,7 @@ impl ReadXml for Maybe<Candidate> {
                 (ResolveResult::Bound(XNM), Event::Start(tag))
                     if tag.local_name().as_ref() == b"name" && name.is_none() =>
                 {
-                    name = Some(reader.read_text(tag.to_end().name()).map(Name::new)?);
+                    name = Some(read_name(reader, &tag)?);
                 }
                 (ResolveResult::Bound(XNM), Event::Start(tag))
                     if tag.local_name().as_ref() == b"then" && !reject_policy =>
@@ -243,7 +243,7 @@ impl ReadXml for Maybe<Installed> {
                     if tag.local_name().as_ref() == b"name" && name.is_none() =>
                 {
                     tracing::debug!(?tag);
-                    name = Some(reader.read_text(tag.to_end().name()).map(Name::new)?);
+                    name = Some(read_name(reader, &tag)?);
                     tracing::debug!(?name);
                 }
                 (ResolveResult::Bound(XNM), Event::Start(tag))
@@ -310,6 +310,13 @@ impl ReadXml for Maybe<Installed> {
             Ok(Self(None))
         }
     }
+}
+
+/// Read the (escaped) text content of a `<name>` element.
+fn read_name(reader: &mut NsReader<&[u8]>, tag: &BytesStart<'_>) -> Result<Name, ReadError> {
+    let raw = reader.read_text(tag.to_end().name())?;
+    let name = quick_xml::escape::unescape(&raw).map_err(|err| ReadError::Other(err.into()))?;
+    Ok(Name::new(name))
 }
 
 trait BorrowedReadXml<'i>: Sized + 'i {
